@@ -743,9 +743,14 @@ func (e *env) loss(round int) (inflight []*op) {
 			e.inconclusive("ordering infeasible: second redial not reached")
 			return
 		}
+		// whatever that reader receives, it is held right after the read until the redialing writer has
+		// settled (in its hook, or past it)
+		tR3 := gates.Park("read.afterMessage", e.matchClient)
 		tR2.Release()
 		shortQ() // the reader started for the first fresh connection now reads from the session's socket
 		tW2.Release()
+		shortQ()
+		tR3.Release()
 	case "slow-handler":
 		// the reader has marked the session and waits for the running handler; a call notices the
 		// closed session, runs its own redial round, then the handler returns and the reader goes on
